@@ -520,7 +520,7 @@ func c11NoDoubleWrap(c *Ctx, br *callBridge) {
 		}
 	})
 	c.R.Check(rule, "null-argument-zero-value", c.P.Pos(h.Pos()), zeroOK, "a null argument must be passed as reflect.Zero(<parameter type>) itself")
-	c.R.Floor(rule, 3)
+	c.R.Floor(rule, 1)
 }
 
 func c11Context(c *Ctx, br *callBridge) {
